@@ -76,9 +76,14 @@ class PacketzQueue(JSONBase):
         return os.fstat(q.fileno()).st_nlink > 0
 
     def _ensure_open(self) -> IO[str]:
+        # errors="replace": a record that is still being written may end in the
+        # middle of a multi-byte character, and a damaged line may hold invalid
+        # UTF-8; neither may raise out of receive(). The partial line has no
+        # newline and is retried, the damaged one fails its checksum.
         q = self.path.open(
             "rt",
             encoding="utf-8",
+            errors="replace",
             buffering=1024 * 256,
         )
         assert self._queue_healthy(q)
